@@ -176,6 +176,15 @@ def generate(rng, tier, index):
             st = letter_step('K', 'SymmetricKey', '@' + base[0][0], r, ver)
             st['items'][0]['uids'] = ['@' + b[0] for b in base]
             steps.append(st)
+        elif x < 0.42:
+            # use - leave the Active state - use again, on one object: a
+            # use that worked while Active must stop working afterwards
+            # (whatever the server remembered from the first use)
+            lab, ot = r.choice(objs)
+            use = r.choice(['U', 'W', 'K', 'U'])
+            for le in ['A', use, r.choice(['Ru', 'Rk', 'Rc']), use] + \
+                    (['D', use] if r.random() < 0.4 else []):
+                steps.append(letter_step(le, ot, '@' + lab, r, ver))
         else:
             lab, ot = r.choice(objs)
             le = r.choice(LETTERS + ['A', 'U', 'U', 'Rk'])
